@@ -145,7 +145,9 @@ fn replay(sink: &mut common::Sink, toks: &[&str]) {
         "c16x" => c16x::replay(sink, toks),
         "rtv" | "rtt" => c04::replay(sink, toks),
         "rtm" => c04m::replay(sink, toks),
+        "rtw" => c04m::replay(sink, toks),
         "tt" | "tt3" | "pfxs" | "rfaults" => typed::replay(sink, toks),
+        "ttd" => typed::replay(sink, toks),
         "f64rt" | "f32rt" | "f64pr" | "f32pr" | "f32all" => c07::replay(sink, toks),
         "rawser" | "rawnest" | "stream3" | "sdepth" | "spfx" | "raw3" => streamraw::replay(sink, toks),
         "lm" => lexmath::replay(sink, toks),
